@@ -693,6 +693,15 @@ class Gen:
         if r.random() < 0.5 * self.size:
             for op in r.sample(["==", "+", "[]c", "()", "neg", "cast", "<"], r.choice([1, 2, 3])):
                 cls["methods"].append(self.gen_operator(cls, op, ind))
+        if getattr(self, "ext", False) and r.random() < 0.35:
+            # implicit conversion to a pointer to another class (raw declaration, not part of the model)
+            others = [c2 for c2 in self.classes.values() if c2.get("complete") and not c2.get("abstract") and not c2.get("template")
+                      and c2["qname"] != q and not c2.get("outer")]
+            if others:
+                oc = r.choice(others)
+                self.h.append(f"{ind}operator {oc['qname']} *();")
+                self.cx.append(f"{q}::operator {oc['qname']} *() {{ return {oc['qname']}::vf_pool(1); }}")
+                cls["raw_ptrcast"] = oc["qname"]
         if getattr(self, "ext", False) and r.random() < 0.3 and not any(m["name"] == "operator []" for m in cls["methods"]):
             # reference-returning subscript operators (item assignment is synthesised only for the non-const T& form)
             form = r.choice(["ref+const", "constref-nonconst", "ref"])
